@@ -83,14 +83,11 @@ def r1_constrain(ctx):
         # resampling operators only: ignore the sample variations for deterministic ones (identical results)
         ctx.check(not bad, "C14.R1", fn.key, "inside-after-identity-inside-terminates",
                   "coordinates %s / %s (samples %s): %s" % (bad[0] if bad else ("", "", "", "")), detail="%d region combinations x sample sequences" % total, loc=fn.loc())
-        ex = F.fn_opt("<%s as mahf::components::Component>::execute" % fn.impl_self_adt)
-        r = ex.body.expr_of_local(0) if ex else None
-        good = ex is not None and r[0] == "call" and r[1] == "mahf::components::boundary::boundary_constraint" and len(list(ex.body.calls())) == 1
-        ctx.check(good, "C14.R1", fn.impl_self_adt, "executes-through-driver", "execute() is not exactly boundary_constraint(self, problem, state)", loc=(ex or fn).loc())
+        # (that the operator executes through the driver - or through code that behaves like it - is C14.DRV)
     ctx.count("constrain_evaluations", total)
 
 
-def r3_driver(ctx):
+def r3_driver(ctx, fn=None, rule="C14.R3"):
     """the boundary driver on the REAL population stack (another population underneath), the stack and the generator owned by
     the current or the enclosing scope: every solution of the TOP population is repaired exactly once, the repaired
     individuals carry no objective value any more, nothing else on the stack is touched, and stack and generator stay in the
@@ -98,7 +95,7 @@ def r3_driver(ctx):
     import statemodel
     from c04 import StackModel
     F = ctx.facts
-    fn = F.fn("mahf::components::boundary::boundary_constraint")
+    fn = fn or F.fn("mahf::components::boundary::boundary_constraint")
     POP = statemodel.POPULATIONS
     bad = []
     for owner in (0, 1):
@@ -114,6 +111,7 @@ def r3_driver(ctx):
             table = {BC + "::constrain": constrain}
             it = install(Interp(fn.body, chain(mk_oracle(table), store, StackModel(sf), coll_oracle, std_oracle), [Sym("component"), Sym("problem"), Sym("state")], facts=F,
                                 inline=lambda k: k.startswith(POP + "::") or INL(k) or statemodel.inline(k), max_visits=12))
+            it.never_inline = lambda k_: k_.endswith(" as " + BC + ">::constrain")      # (the operator is answered by the scenario)
             # members 0, 2 carry an objective value from an earlier evaluation, member 1 has none (freshly modified)
             it.init_state = {"heap": {"cur": tuple(c07.ind(i) if i != 1 else Agg("adt", c07.IND, "Individual", [Sym("s:1"), NONE]) for i in range(size)), "below": (c07.ind("b"),)},
                              "next_vec": 0, "stack": (Vec("below"), Vec("cur"))}
@@ -136,16 +134,17 @@ def r3_driver(ctx):
                 stale = [c07.otag(x) for x in p.mstate["heap"].get("cur", ()) if isinstance(x.fields[1], Agg) and x.fields[1].variant == "Some"]
                 if stale:
                     bad.append((where, "leaves objective values on repaired individuals: %s" % stale))
-    ctx.check(not bad, "C14.R3", fn.key, "every-solution-once", "population of %s: the driver %s" % (bad[0] if bad else ("", "")), loc=fn.loc())
+    ctx.check(not bad, rule, fn.key, "every-solution-once", "population of %s: the driver %s" % (bad[0] if bad else ("", "")), loc=fn.loc())
 
 
-def r4_initialization(ctx):
+def r4_initialization(ctx, fn=None, rule="C14.R4"):
     """the initialization driver on the REAL population stack (0..1 populations already there): afterwards exactly one
     more population lies on top - the produced solutions, in order, each as an unevaluated individual - and whatever was
     underneath is untouched"""
     from c04 import StackModel
     F = ctx.facts
-    fn = F.fn("mahf::components::initialization::initialization")
+    delegated = fn is None
+    fn = fn or F.fn("mahf::components::initialization::initialization")
     POP = "mahf::state::common::Populations"
     sf = F.field_index(POP, "stack")
     bad = []
@@ -162,6 +161,7 @@ def r4_initialization(ctx):
             it = install(Interp(fn.body, chain(mk_oracle(table), store, StackModel(sf), coll_oracle, std_oracle), [Sym("component"), Sym("problem"), Sym("state")], facts=F,
                                 inline=lambda k: k.startswith(POP + "::") or INL(k) or statemodel.inline(k), max_visits=12))
             it.init_state = {"stack": tuple(Vec(x) for x in below), "heap": {x: (c07.ind(x),) for x in below}, "next_vec": 0}
+            it.never_inline = lambda k_: k_.endswith(" as mahf::components::initialization::Initialization>::initialize")      # (answered by the scenario)
             store.install(it)
             for p in it.run():
                 st = list(p.mstate.get("stack", ()))
@@ -186,7 +186,9 @@ def r4_initialization(ctx):
                 want = [("s:%d" % i, "None") for i in range(size)]
                 if got != want:
                     bad.append((ctxs, "pushes %s, expected the %d produced solutions as unevaluated individuals" % (got, size)))
-    ctx.check(not bad, "C14.R4", fn.key, "pushes-unevaluated-once", "initialize() producing %s solutions: the driver %s" % (bad[0] if bad else ("", "")), loc=fn.loc())
+    ctx.check(not bad, rule, fn.key, "pushes-unevaluated-once", "initialize() producing %s solutions: the driver %s" % (bad[0] if bad else ("", "")), loc=fn.loc())
+    if not delegated:
+        return
     impls = [f for f in F.all_fns if f.impl_trait == "mahf::components::initialization::Initialization" and f.name == "initialize"]
     ctx.floor("C14.R4", "Initialization implementations", len(impls), 3)
     FU = "mahf::components::initialization::functional::"
